@@ -90,3 +90,10 @@ fn bg4_roundtrip_14() {
 fn bg4_roundtrip_15() {
     bg4_roundtrip::<15>();
 }
+#[kani::proof]
+fn bg4_roundtrip_32_to_35() {
+    bg4_roundtrip::<32>();
+    bg4_roundtrip::<33>();
+    bg4_roundtrip::<34>();
+    bg4_roundtrip::<35>();
+}
